@@ -15,6 +15,12 @@ def coreBin (op : Op) : Bool :=
   op = .add || op = .sub || op = .mul || op = .mod || op = .eq || op = .ne || op = .lt ||
   op = .le || op = .gt || op = .ge || op = .is_ || op = .is_not
 
+/-- the two divisions: rendered by `visit_truediv_binary` / `visit_floordiv_binary` -/
+def coreDiv (op : Op) : Bool := op = .truediv || op = .floordiv
+
+/-- binary operators of the fragment -/
+def coreBinD (op : Op) : Bool := coreBin op || coreDiv op
+
 /-- operators of flattened lists in the fragment -/
 def coreList (op : Op) : Bool := op = .add || op = .mul || op = .and_ || op = .or_
 
@@ -22,7 +28,8 @@ def coreUn (op : Op) : Bool := op = .neg || op = .inv
 
 /-- every infix operator of the fragment -/
 def coreInfix : List Op :=
-  [.add, .sub, .mul, .mod, .eq, .ne, .lt, .le, .gt, .ge, .is_, .is_not, .and_, .or_]
+  [.add, .sub, .mul, .mod, .eq, .ne, .lt, .le, .gt, .ge, .is_, .is_not, .and_, .or_,
+   .truediv, .floordiv]
 
 def corePrefix : List Op := [.neg, .inv]
 
@@ -37,7 +44,7 @@ def Core : SaExpr → Bool
   | .null => true
   | .true_ => true
   | .false_ => true
-  | .binary op l r _ esc _ => coreBin op && esc.isNone && Core l && Core r
+  | .binary op l r _ esc _ => coreBinD op && esc.isNone && Core l && Core r
   | .clist op cs group _ _ => coreList op && group && decide (2 ≤ cs.length) && CoreList cs
   | .unary op e _ => coreUn op && Core e
   | .grouping e => Core e
@@ -114,7 +121,10 @@ def sepCompat (g : Grammar) : Bool :=
     (coreInfix.all fun o => decide (sr ≤ infBase g o)) &&
     (corePrefix.all fun u => decide (sr ≤ preBase g u)) &&
     (coreInfix.all fun o => decide (opSmallest - 1 < precOf o)) &&
-    (corePrefix.all fun u => decide (opSmallest - 1 < precOf u))
+    (corePrefix.all fun u => decide (opSmallest - 1 < precOf u)) &&
+    -- SQLite spells true division `l / (r + 0.0)`: whatever is left bare under `/` binds
+    -- tighter than the `+` it is put under
+    decide (precOf .add ≤ precOf .truediv)
 
 /-- compatibility of the regenerated precedence numbers with grammar `g`, on the fragment -/
 def coreCompat (g : Grammar) : Bool :=
@@ -173,6 +183,47 @@ theorem renderList_nil (d : Dialect) (lb : Bool) : renderList d lb [] = [] := rf
 theorem coreBin_mem {op : Op} (h : coreBin op = true) : op ∈ coreInfix := by
   cases op <;> simp [coreBin] at h <;> simp [coreInfix]
 
+theorem coreDiv_mem {op : Op} (h : coreDiv op = true) : op ∈ coreInfix := by
+  cases op <;> simp [coreDiv] at h <;> simp [coreInfix]
+
+theorem coreBinD_cases {op : Op} (h : coreBinD op = true) : coreBin op = true ∨ coreDiv op = true := by
+  simpa [coreBinD] using h
+
+theorem coreBinD_mem {op : Op} (h : coreBinD op = true) : op ∈ coreInfix := by
+  rcases coreBinD_cases h with h | h
+  · exact coreBin_mem h
+  · exact coreDiv_mem h
+
+def zeroAtom : G := G.atom ⟨"0.0", .num "0.0"⟩
+
+/-- the four spellings of a division over the rendered operands `L`, `R` -/
+inductive DivShape (L R : G) : G → Prop
+  | plain : DivShape L R (G.inf .slash " / " L R)
+  | real0 : DivShape L R (G.inf .slash " / " L (G.br .paren (G.inf .plus " + " R zeroAtom)))
+  | cast (n : String) : DivShape L R (G.inf .slash " / " L (G.br .cast (G.inf .as_ " AS " R (opaqueG n))))
+  | floor : DivShape L R (G.br (.fn "FLOOR") (G.inf .slash " / " L R))
+
+theorem truedivG_shape (d : Dialect) (L R : G) : DivShape L R (truedivG d L R) := by
+  unfold truedivG
+  split
+  · exact .real0
+  · split
+    · exact .cast _
+    · exact .plain
+
+theorem floordivG_shape (d : Dialect) (lt rt : Ty) (L R : G) : DivShape L R (floordivG d lt rt L R) := by
+  unfold floordivG
+  split
+  · exact .plain
+  · exact .floor
+
+theorem render_coreDiv (d : Dialect) (lb : Bool) (op : Op) (l r : SaExpr) (n : Option Op)
+    (esc : Option String) (ty : Ty) (h : coreDiv op = true) :
+    DivShape (render d lb l) (render d lb r) (render d lb (.binary op l r n esc ty)) := by
+  cases op <;> simp [coreDiv] at h
+  · exact truedivG_shape d _ _
+  · exact floordivG_shape d _ _ _ _
+
 theorem coreList_mem {op : Op} (h : coreList op = true) : op ∈ coreInfix := by
   cases op <;> simp [coreList] at h <;> simp [coreInfix]
 
@@ -202,20 +253,22 @@ structure Compat (g : Grammar) : Prop where
     (∀ s, s.isSep = true → g.infixBp s = some (sl, sr) ∧ g.ternBp s = none) ∧
     (∀ o ∈ coreInfix, sr ≤ infBase g o) ∧ (∀ u ∈ corePrefix, sr ≤ preBase g u)
   bottom : (∀ o ∈ coreInfix, opSmallest - 1 < precOf o) ∧ (∀ u ∈ corePrefix, opSmallest - 1 < precOf u)
+  add_div : precOf .add ≤ precOf .truediv
 
 theorem sep_of_bool (g : Grammar) (h : sepCompat g = true) :
     (∃ sl sr, sl < sr ∧
       (∀ s, s.isSep = true → g.infixBp s = some (sl, sr) ∧ g.ternBp s = none) ∧
       (∀ o ∈ coreInfix, sr ≤ infBase g o) ∧ (∀ u ∈ corePrefix, sr ≤ preBase g u)) ∧
-    ((∀ o ∈ coreInfix, opSmallest - 1 < precOf o) ∧ (∀ u ∈ corePrefix, opSmallest - 1 < precOf u)) := by
+    ((∀ o ∈ coreInfix, opSmallest - 1 < precOf o) ∧ (∀ u ∈ corePrefix, opSmallest - 1 < precOf u)) ∧
+    precOf .add ≤ precOf .truediv := by
   unfold sepCompat at h
   cases hb : g.infixBp .comma with
   | none => simp [hb] at h
   | some p =>
     obtain ⟨sl, sr⟩ := p
     simp only [hb, Bool.and_eq_true, List.all_eq_true, decide_eq_true_eq, beq_iff_eq] at h
-    obtain ⟨⟨⟨⟨⟨h1, h2⟩, h3⟩, h4⟩, h5⟩, h6⟩ := h
-    refine ⟨⟨sl, sr, h1, ?_, h3, h4⟩, h5, h6⟩
+    obtain ⟨⟨⟨⟨⟨⟨h1, h2⟩, h3⟩, h4⟩, h5⟩, h6⟩, h7⟩ := h
+    refine ⟨⟨sl, sr, h1, ?_, h3, h4⟩, ⟨h5, h6⟩, h7⟩
     intro s hs
     have hm : s ∈ sepSyms := by cases s <;> simp [Sym.isSep] at hs <;> simp [sepSyms]
     have := h2 s hm
@@ -228,10 +281,10 @@ theorem compat_of_bool (g : Grammar) (h : coreCompat g = true) : Compat g := by
   have hsep : sepCompat g = true := by
     simp only [coreCompat, Bool.and_eq_true] at h
     exact h.1.1.1.1.1.1.1
-  obtain ⟨hS, hB⟩ := sep_of_bool g hsep
+  obtain ⟨hS, hB, hAD⟩ := sep_of_bool g hsep
   simp only [coreCompat, Bool.and_eq_true, List.all_eq_true] at h
   obtain ⟨⟨⟨⟨⟨⟨⟨_, h1⟩, h2⟩, h3⟩, h4⟩, h5⟩, h6⟩, h7⟩ := h
-  refine ⟨?_, ?_, ?_, ?_, ?_, ?_, ?_, ?_, ?_, hS, hB⟩
+  refine ⟨?_, ?_, ?_, ?_, ?_, ?_, ?_, ?_, ?_, hS, hB, hAD⟩
   · intro o ho
     have := h1 o ho
     try simp only [Bool.and_eq_true] at this
@@ -391,7 +444,7 @@ theorem above_of_WG (hprec : ∀ o, o ∈ coreInfix ∨ o ∈ corePrefix → (pr
     simp only [WG, Bool.and_eq_true, Bool.not_eq_true'] at hw
     obtain ⟨⟨⟨hgl, hgr⟩, hwl⟩, hwr⟩ := hw
     simp only [rootAbove, decide_eq_true_eq] at hr
-    have hs := hprec op (Or.inl (coreBin_mem hop))
+    have hs := hprec op (Or.inl (coreBinD_mem hop))
     simp only [above, Bool.and_eq_true, decide_eq_true_eq]
     refine ⟨⟨hr, ?_⟩, ?_⟩
     · apply above_of_WG hprec l p hcl hwl
@@ -545,6 +598,18 @@ theorem infBase_le {g : Grammar} {o : Op} {lbp rbp k : Nat}
   simp only [infBase, hb] at h
   omega
 
+theorem symOf_div {op : Op} (h : coreDiv op = true) : symOf op = .slash := by
+  cases op <;> simp [coreDiv] at h <;> rfl
+
+theorem tight_div (g : Grammar) (k lbp rbp : Nat) (hb : g.infixBp .slash = some (lbp, rbp))
+    (hl : k ≤ lbp) (hr : k ≤ rbp) {L R x : G} (sh : DivShape L R x)
+    (tL : tight g k L = true) (tR : tight g k R = true) : tight g k x = true := by
+  cases sh <;> simp [tight, hb, hl, hr, tL, tR]
+
+theorem allExp_div (P : Sym → Bool) (hP : P .slash = true) {L R x : G} (sh : DivShape L R x)
+    (aL : allExp P L = true) (aR : allExp P R = true) : allExp P x = true := by
+  cases sh <;> simp [allExp, hP, aL, aR]
+
 mutual
 /-- if every operator outside parentheses has precedence above `p`, and the grammar binds all
     such operators at least `k`, the rendering is `k`-tight -/
@@ -563,11 +628,15 @@ theorem tight_render (g : Grammar) (C : Compat g) (d : Dialect) (k : Nat) (p : I
     obtain ⟨⟨⟨hop, _⟩, hcl⟩, hcr⟩ := hc
     simp only [above, Bool.and_eq_true, decide_eq_true_eq] at ha
     obtain ⟨⟨hp, hal⟩, har⟩ := ha
-    obtain ⟨txt, heq⟩ := render_coreBin d true op l r n esc ty hop
-    obtain ⟨lbp, rbp, hb, _, _⟩ := C.inf_known op (coreBin_mem hop)
-    obtain ⟨h1, h2⟩ := infBase_le hb (H op (coreBin_mem hop) hp)
-    rw [heq]
-    simp [tight, hb, h1, h2, tight_render g C d k p H H' l hcl hal, tight_render g C d k p H H' r hcr har]
+    obtain ⟨lbp, rbp, hb, _, _⟩ := C.inf_known op (coreBinD_mem hop)
+    obtain ⟨h1, h2⟩ := infBase_le hb (H op (coreBinD_mem hop) hp)
+    rcases coreBinD_cases hop with hop' | hdiv
+    · obtain ⟨txt, heq⟩ := render_coreBin d true op l r n esc ty hop'
+      rw [heq]
+      simp [tight, hb, h1, h2, tight_render g C d k p H H' l hcl hal, tight_render g C d k p H H' r hcr har]
+    · rw [symOf_div hdiv] at hb
+      exact tight_div g k lbp rbp hb h1 h2 (render_coreDiv d true op l r n esc ty hdiv)
+        (tight_render g C d k p H H' l hcl hal) (tight_render g C d k p H H' r hcr har)
   | .unary op e ty, hc, ha => by
     simp only [Core, Bool.and_eq_true] at hc
     simp only [above, Bool.and_eq_true, decide_eq_true_eq] at ha
@@ -634,9 +703,14 @@ theorem allExp_render (d : Dialect) (P : Sym → Bool)
   | .binary op l r n esc ty, hc => by
     simp only [Core, Bool.and_eq_true] at hc
     obtain ⟨⟨⟨hop, _⟩, hcl⟩, hcr⟩ := hc
-    obtain ⟨txt, heq⟩ := render_coreBin d true op l r n esc ty hop
-    rw [heq]
-    simp [allExp, hP op (coreBin_mem hop), allExp_render d P hP hP' l hcl, allExp_render d P hP hP' r hcr]
+    rcases coreBinD_cases hop with hop' | hdiv
+    · obtain ⟨txt, heq⟩ := render_coreBin d true op l r n esc ty hop'
+      rw [heq]
+      simp [allExp, hP op (coreBin_mem hop'), allExp_render d P hP hP' l hcl, allExp_render d P hP hP' r hcr]
+    · have hs := hP op (coreDiv_mem hdiv)
+      rw [symOf_div hdiv] at hs
+      exact allExp_div P hs (render_coreDiv d true op l r n esc ty hdiv)
+        (allExp_render d P hP hP' l hcl) (allExp_render d P hP hP' r hcr)
   | .unary op e ty, hc => by
     simp only [Core, Bool.and_eq_true] at hc
     rw [render_unary]
@@ -706,13 +780,17 @@ theorem rootIs_chainFrom (s : Sym) (t : String) :
     exact rootIs_chainFrom s t gs _ (Or.inr (by simp [rootIs]))
 
 theorem rootIs_render_of_rootOp (d : Dialect) (op : Op) (c : SaExpr) (hc : Core c = true)
-    (hr : rootOp c = some op) (hi : op ∈ coreInfix) : rootIs (symOf op) (render d true c) = true := by
+    (hr : rootOp c = some op) (hi : op ∈ coreInfix) (hna : G.assocSym (symOf op) = true) :
+    rootIs (symOf op) (render d true c) = true := by
   cases c with
   | binary op' l r n esc ty =>
     simp only [rootOp, Option.some.injEq] at hr; subst hr
     simp only [Core, Bool.and_eq_true] at hc
-    obtain ⟨txt, heq⟩ := render_coreBin d true op' l r n esc ty hc.1.1.1
-    rw [heq]; simp [rootIs]
+    rcases coreBinD_cases hc.1.1.1 with hop' | hdiv
+    · obtain ⟨txt, heq⟩ := render_coreBin d true op' l r n esc ty hop'
+      rw [heq]; simp [rootIs]
+    · rw [symOf_div hdiv] at hna
+      cases hna
   | clist op' cs gr bl ty =>
     simp only [rootOp, Option.some.injEq] at hr; subst hr
     simp only [Core, Bool.and_eq_true, decide_eq_true_eq] at hc
@@ -771,7 +849,7 @@ theorem child_under_infix (g : Grammar) (C : Compat g) (d : Dialect) (op : Op) (
     by_cases hle : precOf cop ≤ precOf op
     · obtain ⟨heq, hn⟩ := same_of_not_precedent_le hs hnp hle
       subst heq
-      exact Or.inl ⟨hn, rootIs_render_of_rootOp d cop c hc hr hi⟩
+      exact Or.inl ⟨hn, rootIs_render_of_rootOp d cop c hc hr hi (C.nsp_assoc cop hi hn).1⟩
     · have hlt : precOf op < precOf cop := by omega
       have hab : above (precOf op) c = true :=
         above_of_WG (precs g C) c _ hc hw (rootAbove_of_rootOp (by
@@ -955,7 +1033,7 @@ theorem ok_castG {g : Grammar} {sl sr : Nat} (F : SepFacts g sl sr) (name : Opti
 theorem rootOp_mem {c : SaExpr} {cop : Op} (hc : Core c = true) (h : rootOp c = some cop) :
     cop ∈ coreInfix ∨ cop ∈ corePrefix := by
   cases c <;> simp [rootOp] at h <;> subst h <;> simp only [Core, Bool.and_eq_true] at hc
-  · exact Or.inl (coreBin_mem hc.1.1.1)
+  · exact Or.inl (coreBinD_mem hc.1.1.1)
   · exact Or.inl (coreList_mem hc.1.1.1)
   · exact Or.inr (coreUn_mem hc.1)
 
@@ -980,6 +1058,51 @@ theorem sepOpnd_render (g : Grammar) (C : Compat g) (hpt : prefixNoTern g) (d : 
   · intro s _
     exact allExp_render d _ (notMid_core g C _) (fun u hu => by simp [notMidOf, hpt u hu]) c hc
 
+/-- a child left bare under a parent that is not naturally self-precedent lies strictly above it -/
+theorem child_above (g : Grammar) (C : Compat g) (op : Op) (hi : op ∈ coreInfix)
+    (hnn : naturalSelfPrecedent op = false) (c : SaExpr) (hc : Core c = true) (hw : WG c = true)
+    (hg : wouldGroup (some op) c = false) : above (precOf op) c = true := by
+  have hs : (precedence op).isSome = true := precs g C op (Or.inl hi)
+  apply above_of_WG (precs g C) c _ hc hw
+  apply rootAbove_of_rootOp
+  intro cop hr
+  have hnp := not_precedent_of_not_wouldGroup hc hr hg
+  by_cases hle : precOf cop ≤ precOf op
+  · obtain ⟨heq, hn⟩ := same_of_not_precedent_le hs hnp hle
+    subst heq
+    rw [hnn] at hn; cases hn
+  · omega
+
+theorem ok_slash (g : Grammar) (lbp rbp : Nat) (hb : g.infixBp .slash = some (lbp, rbp))
+    (hq : g.ternBp .slash = none) (L X : G) (okL : ok g L = true) (okX : ok g X = true)
+    (tL : tight g (lbp + 1) L = true) (nmL : allExp (notMidOf g (some .slash)) L = true)
+    (tX : tight g rbp X = true) : ok g (G.inf .slash " / " L X) = true := by
+  have ha : G.assocSym .slash = false := rfl
+  simp [ok, hb, ha, okL, okX, hq, tL, nmL, tX]
+
+/-- `R + 0.0` where everything exposed in `R` binds tighter than `+` -/
+theorem ok_plus_zero (g : Grammar) (C : Compat g) (R : G) (okR : ok g R = true)
+    (tR : ∀ lbpP rbpP, g.infixBp .plus = some (lbpP, rbpP) → tight g rbpP R = true)
+    (nmR : allExp (notMidOf g (some .plus)) R = true) :
+    ok g (G.inf .plus " + " R zeroAtom) = true := by
+  have hi : Op.add ∈ coreInfix := by simp [coreInfix]
+  have ha : G.assocSym (symOf .add) = true := rfl
+  obtain ⟨_, lbpP, rbpP, hbP, hlt⟩ := C.nsp_assoc .add hi (C.assoc_nsp .add hi ha)
+  obtain ⟨_, _, hbP', hqP, _⟩ := C.inf_known .add hi
+  have hbP2 : g.infixBp .plus = some (lbpP, rbpP) := hbP
+  have hqP2 : g.ternBp .plus = none := hqP
+  have ha2 : G.assocSym .plus = true := rfl
+  simp [ok, hbP2, ha2, okR, hqP2, hlt, tR lbpP rbpP hbP2, nmR, zeroAtom, tight, allExp]
+
+theorem coreBinD_not_nsp_div (g : Grammar) (C : Compat g) {op : Op} (hdiv : coreDiv op = true) :
+    naturalSelfPrecedent op = false := by
+  cases hh : naturalSelfPrecedent op with
+  | false => rfl
+  | true =>
+    have := (C.nsp_assoc op (coreDiv_mem hdiv) hh).1
+    rw [symOf_div hdiv] at this
+    cases this
+
 theorem optG_some {e : SaExpr} {g x : G} (h : optG e g = some x) : x = g ∧ isAbsent e = false := by
   cases e <;> simp [optG] at h <;> exact ⟨h.symm, rfl⟩
 
@@ -997,14 +1120,12 @@ theorem ok_render (g : Grammar) (C : Compat g) (hpt : prefixNoTern g) (d : Diale
     simp only [ok]
     exact ok_render g C hpt d e (by simpa [Core] using hc) (by simpa [WG] using hw)
   | .binary op l r n esc ty, hc, hw => by
-    have hc0 := hc
     simp only [Core, Bool.and_eq_true] at hc
     obtain ⟨⟨⟨hop, _⟩, hcl⟩, hcr⟩ := hc
     simp only [WG, Bool.and_eq_true, Bool.not_eq_true'] at hw
     obtain ⟨⟨⟨hgl, hgr⟩, hwl⟩, hwr⟩ := hw
-    have hi := coreBin_mem hop
+    have hi := coreBinD_mem hop
     obtain ⟨lbp, rbp, hb, hq, _⟩ := C.inf_known op hi
-    obtain ⟨txt, heq⟩ := render_coreBin d true op l r n esc ty hop
     have okl := ok_render g C hpt d l hcl hwl
     have okr := ok_render g C hpt d r hcr hwr
     have chl := child_under_infix g C d op hi lbp rbp hb l hcl hwl hgl
@@ -1013,32 +1134,77 @@ theorem ok_render (g : Grammar) (C : Compat g) (hpt : prefixNoTern g) (d : Diale
       (fun u hu => by simp [notMidOf, hpt u hu]) l hcl
     have nmr := allExp_render d (notMidOf g (some (symOf op))) (notMid_core g C _)
       (fun u hu => by simp [notMidOf, hpt u hu]) r hcr
-    rw [heq]
-    by_cases ha : G.assocSym (symOf op) = true
-    · have hn := C.assoc_nsp op hi ha
-      obtain ⟨_, lbp', rbp', hb', hlt⟩ := C.nsp_assoc op hi hn
-      rw [hb] at hb'; cases hb'
-      simp only [ok, hb, ha, if_true, okl, okr, Bool.true_and, Bool.and_eq_true, decide_eq_true_eq,
-        Bool.or_eq_true, hq, Option.isNone_none]
-      refine ⟨⟨⟨hlt, trivial⟩, ?_⟩, ?_⟩
-      · rcases chl with h | h
-        · exact Or.inl h.2
-        · exact Or.inr ⟨h.2, nml⟩
-      · rcases chr with h | h
-        · exact Or.inl h.2
-        · exact Or.inr ⟨h.2, nmr⟩
-    · have ha' : G.assocSym (symOf op) = false := by simpa using ha
-      have hnn : naturalSelfPrecedent op = false := by
-        cases hh : naturalSelfPrecedent op with
-        | false => rfl
-        | true => exact absurd (C.nsp_assoc op hi hh).1 ha
-      simp only [ok, hb, ha', Bool.false_eq_true, if_false, okl, okr, Bool.true_and, hq,
-        Bool.and_eq_true, Bool.or_eq_true]
-      rcases chl with h | h
-      · rw [hnn] at h; cases h.1
-      · rcases chr with h' | h'
-        · rw [hnn] at h'; cases h'.1
-        · exact ⟨Or.inl ⟨h.1, nml⟩, h'.2⟩
+    rcases coreBinD_cases hop with hop' | hdiv
+    · obtain ⟨txt, heq⟩ := render_coreBin d true op l r n esc ty hop'
+      rw [heq]
+      by_cases ha : G.assocSym (symOf op) = true
+      · have hn := C.assoc_nsp op hi ha
+        obtain ⟨_, lbp', rbp', hb', hlt⟩ := C.nsp_assoc op hi hn
+        rw [hb] at hb'; cases hb'
+        simp only [ok, hb, ha, if_true, okl, okr, Bool.true_and, Bool.and_eq_true, decide_eq_true_eq,
+          Bool.or_eq_true, hq, Option.isNone_none]
+        refine ⟨⟨⟨hlt, trivial⟩, ?_⟩, ?_⟩
+        · rcases chl with h | h
+          · exact Or.inl h.2
+          · exact Or.inr ⟨h.2, nml⟩
+        · rcases chr with h | h
+          · exact Or.inl h.2
+          · exact Or.inr ⟨h.2, nmr⟩
+      · have ha' : G.assocSym (symOf op) = false := by simpa using ha
+        have hnn : naturalSelfPrecedent op = false := by
+          cases hh : naturalSelfPrecedent op with
+          | false => rfl
+          | true => exact absurd (C.nsp_assoc op hi hh).1 ha
+        simp only [ok, hb, ha', Bool.false_eq_true, if_false, okl, okr, Bool.true_and, hq,
+          Bool.and_eq_true, Bool.or_eq_true]
+        rcases chl with h | h
+        · rw [hnn] at h; cases h.1
+        · rcases chr with h' | h'
+          · rw [hnn] at h'; cases h'.1
+          · exact ⟨Or.inl ⟨h.1, nml⟩, h'.2⟩
+    · -- the two divisions
+      have hnn := coreBinD_not_nsp_div g C hdiv
+      have hsl := symOf_div hdiv
+      rw [hsl] at hb hq nml
+      have tl : tight g (lbp + 1) (render d true l) = true := by
+        rcases chl with h | h
+        · rw [hnn] at h; cases h.1
+        · exact h.1
+      have tr : tight g rbp (render d true r) = true := by
+        rcases chr with h | h
+        · rw [hnn] at h; cases h.1
+        · exact h.2
+      have plain : ok g (G.inf .slash " / " (render d true l) (render d true r)) = true :=
+        ok_slash g lbp rbp hb hq _ _ okl okr tl nml tr
+      obtain ⟨sl, sr, hlt, hbp, hsi, hsp⟩ := C.sep
+      have F : SepFacts g sl sr := ⟨hlt, hbp⟩
+      have sR := sepOpnd_render g C hpt d sr hsi hsp r hcr hwr okr
+      cases op <;> simp [coreDiv] at hdiv
+      · -- truediv
+        show ok g (truedivG d (render d true l) (render d true r)) = true
+        unfold truedivG
+        split
+        · apply ok_slash g lbp rbp hb hq _ _ okl _ tl nml rfl
+          simp only [ok]
+          apply ok_plus_zero g C _ okr
+          · intro lbpP rbpP hbP
+            have hab := child_above g C .truediv hi hnn r hcr hwr hgr
+            have hia : Op.add ∈ coreInfix := by simp [coreInfix]
+            exact tight_render g C d rbpP (precOf .truediv)
+              (fun o ho h => (C.inf_inf .add hia o ho lbpP rbpP hbP (by have := C.add_div; omega)).2)
+              (fun u hu h => (C.inf_pre .add hia u hu lbpP rbpP hbP (by have := C.add_div; omega)).2)
+              r hcr hab
+          · exact allExp_render d _ (notMid_core g C _) (fun u hu => by simp [notMidOf, hpt u hu]) r hcr
+        · split
+          · apply ok_slash g lbp rbp hb hq _ _ okl _ tl nml rfl
+            exact ok_castG F (some _) false _ sR
+          · exact plain
+      · -- floordiv
+        show ok g (floordivG d (SaExpr.tyOf l) (SaExpr.tyOf r) (render d true l) (render d true r)) = true
+        unfold floordivG
+        split
+        · exact plain
+        · simpa [ok] using plain
   | .unary op e ty, hc, hw => by
     simp only [Core, Bool.and_eq_true] at hc
     simp only [WG, Bool.and_eq_true, Bool.not_eq_true'] at hw
@@ -1232,17 +1398,33 @@ theorem selfGroup_core (a : Op) (x : SaExpr) (hc : Core x = true) (hw : WG x = t
 theorem coreBin_not_boolCtx {op : Op} (h : coreBin op = true) : boolCtx op = false := by
   cases op <;> simp [coreBin] at h <;> rfl
 
+theorem coreBinD_not_boolCtx {op : Op} (h : coreBinD op = true) : boolCtx op = false := by
+  rcases coreBinD_cases h with h | h
+  · exact coreBin_not_boolCtx h
+  · cases op <;> simp [coreDiv] at h <;> rfl
+
+theorem coreBinD_of_bin {op : Op} (h : coreBin op = true) : coreBinD op = true := by
+  simp [coreBinD, h]
+
+theorem coreBinD_of_div {op : Op} (h : coreDiv op = true) : coreBinD op = true := by
+  simp [coreBinD, h]
+
 theorem coreUn_not_boolCtx {op : Op} (h : coreUn op = true) : boolCtx op = false := by
   cases op <;> simp [coreUn] at h <;> rfl
 
 /-- **mkBinary_WG**: `BinaryExpression(left, right, op)` over well grouped core operands is a
     well grouped core element -/
-theorem mkBinary_WG (l r : SaExpr) (op : Op) (ty : Ty) (n : Option Op) (hop : coreBin op = true)
+theorem mkBinary_WG' (l r : SaExpr) (op : Op) (ty : Ty) (n : Option Op) (hop : coreBinD op = true)
     (hcl : Core l = true) (hwl : WG l = true) (hcr : Core r = true) (hwr : WG r = true) :
     Core (mkBinary l r op ty n none) = true ∧ WG (mkBinary l r op ty n none) = true := by
-  obtain ⟨c1, w1, g1⟩ := selfGroup_core op l hcl hwl (Or.inl (coreBin_not_boolCtx hop))
-  obtain ⟨c2, w2, g2⟩ := selfGroup_core op r hcr hwr (Or.inl (coreBin_not_boolCtx hop))
+  obtain ⟨c1, w1, g1⟩ := selfGroup_core op l hcl hwl (Or.inl (coreBinD_not_boolCtx hop))
+  obtain ⟨c2, w2, g2⟩ := selfGroup_core op r hcr hwr (Or.inl (coreBinD_not_boolCtx hop))
   simp [mkBinary, Core, WG, hop, c1, c2, w1, w2, g1, g2]
+
+theorem mkBinary_WG (l r : SaExpr) (op : Op) (ty : Ty) (n : Option Op) (hop : coreBin op = true)
+    (hcl : Core l = true) (hwl : WG l = true) (hcr : Core r = true) (hwr : WG r = true) :
+    Core (mkBinary l r op ty n none) = true ∧ WG (mkBinary l r op ty n none) = true :=
+  mkBinary_WG' l r op ty n (coreBinD_of_bin hop) hcl hwl hcr hwr
 
 /-- **negImpl_WG** / `UnaryExpression(x, operator=op)` -/
 theorem unary_WG (x : SaExpr) (op : Op) (ty : Ty) (hop : coreUn op = true)
@@ -1278,6 +1460,11 @@ open SaVerif.Expr.Gen SaVerif.Pratt
 
 /-! ### the compile-time rewriting is the identity on the fragment -/
 
+theorem strOpKind_coreD {op : Op} (h : coreBinD op = true) : strOpKind op = none := by
+  rcases coreBinD_cases h with h | h
+  · cases op <;> simp [coreBin] at h <;> rfl
+  · cases op <;> simp [coreDiv] at h <;> rfl
+
 theorem strOpKind_core {op : Op} (h : coreBin op = true) : strOpKind op = none := by
   cases op <;> simp [coreBin] at h <;> rfl
 
@@ -1293,7 +1480,7 @@ theorem lower_core : ∀ e : SaExpr, Core e = true → lower e = e
     rw [lower_core e (by simpa [Core] using hc)]
   | .binary op l r n esc ty, hc => by
     simp only [Core, Bool.and_eq_true] at hc
-    simp only [lower, strOpKind_core hc.1.1.1, lower_core l hc.1.2, lower_core r hc.2]
+    simp only [lower, strOpKind_coreD hc.1.1.1, lower_core l hc.1.2, lower_core r hc.2]
   | .unary op e ty, hc => by
     simp only [Core, Bool.and_eq_true] at hc
     simp only [lower, lower_core e hc.2]
